@@ -3,7 +3,7 @@
    specification (headers, versions, streams) in Proofs/XfrSpec.v. *)
 From DV Require Import Base.Prelude Model.XfrM Proofs.XfrSpec.
 From DV Require Proofs.XfrZone Proofs.XfrDiff.
-From DV Require Proofs.XfrSafety Proofs.XfrBasic Proofs.XfrIxfr Proofs.XfrAxfr Proofs.XfrFault Proofs.XfrOrder Proofs.XfrRefresh Proofs.XfrGlue Proofs.XfrTsig Proofs.XfrSections Proofs.XfrGroup Proofs.XfrSoaFaults Proofs.XfrTsigLink Proofs.XfrAddStart Proofs.XfrBody.
+From DV Require Proofs.XfrSafety Proofs.XfrBasic Proofs.XfrIxfr Proofs.XfrAxfr Proofs.XfrFault Proofs.XfrOrder Proofs.XfrRefresh Proofs.XfrGlue Proofs.XfrTsig Proofs.XfrSections Proofs.XfrGroup Proofs.XfrSoaFaults Proofs.XfrTsigLink Proofs.XfrAddStart Proofs.XfrBody Proofs.XfrGeneral Proofs.XfrGeneralAxfr.
 From DV Require Model.TsigM.
 From Coq Require Import Sorting.Permutation.
 
@@ -757,3 +757,74 @@ Example ex_dup_last_addstart_undetectable :
           mkW 0 [] [mkRR 1 1 1 0 60 4; mkRR 1 1 1 0 60 5; soa_rr ex_v1]])
   = Done [(soakey, (3600, [v_soa ex_v1])); ((0, 2, 0), (3600, [1; 2]))].
 Proof. vm_compute. reflexivity. Qed.
+
+
+(* ==== versions of ANY content: singleton types (CNAME, DNAME, NSEC: one rdata), CNAME-kind RRsets, names that
+        change between a CNAME and other data from one version to the next.  The only demand on a version is
+        RFC 1034 3.6.2 "CNAME and other data" (no node holds a CNAME-kind and a regular RRset), which the
+        library enforces itself in dns/node.py (Node._append_rdataset, modelled by node_put).  ==== *)
+Theorem ixfr_converges_general : forall v0 chain z0 ws,
+  XfrGeneral.chain_ok_g v0 chain -> zeq z0 (zone_of v0) -> chunking tIXFR (ixfr_stream v0 chain) ws ->
+  exists z' n, inbound_xfr z0 tIXFR (Some (v_serial v0)) false ws = (Done z', n)
+               /\ zeq z' (zone_of (last chain v0)).
+Proof. exact XfrGeneral.ixfr_converges_general. Qed.
+Print Assumptions ixfr_converges_general.
+
+Theorem axfr_converges_general : forall v z0 ser ws,
+  XfrGeneral.version_wf_g v -> chunking tAXFR (axfr_stream v) ws ->
+  exists z' n, inbound_xfr z0 tAXFR ser false ws = (Done z', n) /\ zeq z' (zone_of v).
+Proof. exact XfrGeneralAxfr.axfr_converges_general. Qed.
+Print Assumptions axfr_converges_general.
+
+Theorem axfr_style_ixfr_converges_general : forall v z0 ser ws,
+  XfrGeneral.version_wf_g v -> v_rest v <> [] ->
+  v_serial v <> ser -> serial_lt (v_serial v) ser = false ->
+  chunking tIXFR (axfr_stream v) ws ->
+  exists z' n, inbound_xfr z0 tIXFR (Some ser) false ws = (Done z', n) /\ zeq z' (zone_of v).
+Proof. exact XfrGeneral.axfr_style_ixfr_converges_general. Qed.
+Print Assumptions axfr_style_ixfr_converges_general.
+
+(* the general forms subsume the restricted ones *)
+Theorem general_covers_restricted : forall v0 chain, chain_ok v0 chain -> XfrGeneral.chain_ok_g v0 chain.
+Proof. exact XfrGeneral.chain_ok_ok_g. Qed.
+Print Assumptions general_covers_restricted.
+
+(* name 1: CNAME + RRSIG(CNAME) + NSEC, name 2: two A records  --->
+   name 1: A + NSEC (other rdata), name 2: CNAME, name 3: DNAME *)
+Definition ex_c0 := mkV 3600 10
+  [((0, 2, 0), (3600, [1])); ((1, 5, 0), (300, [4])); ((1, 46, 5), (300, [1])); ((1, 47, 0), (60, [2])); ((2, 1, 0), (60, [1; 2]))].
+Definition ex_c1 := mkV 3600 11
+  [((0, 2, 0), (3600, [1])); ((1, 1, 0), (300, [7])); ((1, 47, 0), (60, [3])); ((2, 5, 0), (60, [9])); ((3, 39, 0), (60, [1]))].
+
+Example ex_general_chain_ok : XfrGeneral.chain_ok_g ex_c0 [ex_c1] /\ ~ version_wf ex_c0.
+Proof.
+  split.
+  - assert (W : forall v, In v [ex_c0; ex_c1] -> XfrGeneral.version_wf_g v).
+    { intros v [<-|[<-|[]]]; (split; [cbv; split; discriminate|]); (split; [|split]);
+        try (apply XfrGeneral.consistent_check; vm_compute; reflexivity);
+        try (split; repeat constructor; cbv; intuition (try discriminate; try lia));
+        repeat constructor; cbv; intros; try discriminate; eexists; reflexivity. }
+    split; [discriminate|]. split; [apply W; cbn; auto|]. split; [constructor; [apply W; cbn; auto|constructor]|].
+    split; [|vm_compute; reflexivity].
+    intros v [<-|[]]. vm_compute. discriminate.
+  - intros [_ [_ Hf]]. inversion Hf as [|? ? _ Hf1]; subst. inversion Hf1 as [|? ? He _]; subst.
+    cbn in He. destruct He as (_ & _ & _ & _ & _ & Hs & _). discriminate.
+Qed.
+
+Example ex_general_ixfr_runs :
+  fst (inbound_xfr (zone_of ex_c0) tIXFR (Some (v_serial ex_c0)) false
+         (map (fun r => mkW 0 [] [r]) (ixfr_stream ex_c0 [ex_c1])))
+  = Done [(soakey, (3600, [11])); ((3, 39, 0), (60, [1])); ((2, 5, 0), (60, [9])); ((1, 47, 0), (60, [3]));
+          ((1, 1, 0), (300, [7])); ((0, 2, 0), (3600, [1]))].
+Proof. vm_compute. reflexivity. Qed.
+
+(* why "CNAME and other data" is demanded of the server's version: a body with a CNAME and an A record at
+   one node is accepted, and the zone holds whichever came last - not the server's version *)
+Example ex_cname_and_other_data_last_wins :
+  fst (inbound_xfr [] tAXFR None false
+         [mkW 0 [] [mkRR 0 1 6 0 3600 5; mkRR 1 1 5 0 300 4; mkRR 1 1 1 0 300 7; mkRR 0 1 6 0 3600 5]])
+  = Done [(soakey, (3600, [5])); ((1, 1, 0), (300, [7]))]
+  /\ fst (inbound_xfr [] tAXFR None false
+         [mkW 0 [] [mkRR 0 1 6 0 3600 5; mkRR 1 1 1 0 300 7; mkRR 1 1 5 0 300 4; mkRR 0 1 6 0 3600 5]])
+  = Done [(soakey, (3600, [5])); ((1, 5, 0), (300, [4]))].
+Proof. split; vm_compute; reflexivity. Qed.
